@@ -120,19 +120,20 @@ fn entries_for(list: &[TokenTree], out: &mut Vec<String>) {
             Err(e) => out.push(format!("(E {} err {})", key, err_pos(&e))),
         }
         match run(suffix, |input| input.parse::<syn::Path>()) {
-            Ok((p, n, _)) => {
+            Ok((p, n, u)) => {
                 let text = quote! { #p }.to_string();
                 let first = p.segments.first().map(|s| span_str(s.ident.span())).unwrap_or("none".into());
                 let last = p.segments.last().map(|s| span_str(s.ident.span())).unwrap_or("none".into());
                 out.push(format!(
-                    "(P {} ok {} (p {} {} {} {} ({})))",
+                    "(P {} ok {} (p {} {} {} {} ({})) {})",
                     key,
                     n,
                     hex(text.as_bytes()),
                     span_str(p.span()),
                     first,
                     last,
-                    crate::ser::flat_tokens(p.to_token_stream())
+                    crate::ser::flat_tokens(p.to_token_stream()),
+                    unx(u)
                 ));
             }
             Err(e) => out.push(format!("(P {} err {})", key, err_pos(&e))),
